@@ -16,6 +16,7 @@ import ast
 
 from sa import core
 from sa import fieldtypes
+from sa import pat
 from sa import pycfg
 from sa import tpl
 
@@ -62,7 +63,9 @@ def check(model, rep, tier):
         core.dotted(c.func) == 'ast_util.copy_clean']
   rets = [r for r in ast.walk(prep.node) if isinstance(r, ast.Return)]
   rd = tpl.rdefs(prep.node)
-  ok = len(cc) == 1 and core.norm(cc[0].args[0]) in ('repl', 'self.replacements[key]')
+  keyp = prep.params()[1]
+  ok = len(cc) == 1 and tpl.xnorm(prep, cc[0].args[0], cc[0]) == \
+      'self.replacements[%s]' % keyp
   if ok:
     for r in rets:
       if not isinstance(r.value, ast.Name):
@@ -130,26 +133,35 @@ def check(model, rep, tier):
             'CleanCopier.copy may hand back its argument only when it is not a '
             'list, tuple or AST node', {'offending': bad_rets}, line=cp.node.lineno,
             witness='a replacement containing a node kind the copier shares')
-  src = core.norm(cp.node)
-  comp_ok = ('[self.copy(n) for n in %s]' % prm) in src and \
-      ('tuple((self.copy(n) for n in %s))' % prm) in src
-  rec_ok = 'new_fields[f] = self.copy(getattr(%s, f))' % prm in src and \
-      'for f in %s._fields' % prm in src and 'type(%s)(**new_fields)' % prm in src
+  comp_ok = pat.has(cp.node, 'return [self.copy(_N_) for _N_ in %s]' % prm) and \
+      pat.has(cp.node, 'return tuple((self.copy(_N_) for _N_ in %s))' % prm)
+  n1, b1 = pat.first(cp.node, '_D_[_F_] = self.copy(getattr(%s, _F_))' % prm)
+  rec_ok = b1 is not None and pat.has(
+      cp.node, 'for _F_ in %s._fields:\n  __' % prm) is not None and \
+      pat.has(cp.node, '_NEW_ = type(%s)(**_D_)' % prm, {'_D_': b1['_D_']})
+  loops = [l for l in ast.walk(cp.node) if isinstance(l, ast.For) and
+           core.norm(l.iter) == prm + '._fields']
+  rec_ok = rec_ok and len(loops) == 1 and not any(
+      isinstance(x, (ast.Break, ast.Return)) for x in ast.walk(loops[0]))
   rep.check(comp_ok and rec_ok, 'TREE-COPY', '%s:rebuilds-recursively' % cp.site,
             'lists and tuples must be rebuilt element-wise and every node '
             'reconstructed from copies of all its fields', {}, line=cp.node.lineno)
 
   # ---------------------------------------------------------------- TREE-CTX
   vn = rt.methods['visit_Name']
-  src = core.norm(vn.node)
-  ok = 'adjuster = ContextAdjuster(type(node.ctx))' in src and \
-      "if hasattr(n, 'ctx'):\n            adjuster.visit(n)" in src.replace(
-          '\n        ', '\n            ') or (
-              'ContextAdjuster(type(node.ctx))' in src and 'adjuster.visit(n)' in src)
-  loops = [l for l in ast.walk(vn.node) if isinstance(l, ast.For) and
-           core.norm(l.iter) == 'new_nodes']
-  ok = ok and len(loops) == 1 and not any(isinstance(x, (ast.Break, ast.Continue))
-                                          for x in ast.walk(loops[0]))
+  nprm = vn.params()[0]
+  n1, b1 = pat.first(vn.node, '_A_ = ContextAdjuster(type(%s.ctx))' % nprm)
+  n2, b2 = pat.first(vn.node, '_NN_ = self._prepare_replacement(%s, %s.id)' % (nprm, nprm))
+  ok = b1 is not None and b2 is not None
+  if ok:
+    loops = [l for l in ast.walk(vn.node) if isinstance(l, ast.For) and
+             core.norm(l.iter) == b2['_NN_']]
+    ok = len(loops) == 1 and not any(isinstance(x, (ast.Break, ast.Continue))
+                                     for x in ast.walk(loops[0]))
+    if ok:
+      t = core.norm(loops[0].target)
+      ok = pat.has(loops[0], "if hasattr(%s, 'ctx'):\n  %s.visit(%s)" % (
+          t, b1['_A_'], t)) or pat.has(loops[0], '%s.visit(%s)' % (b1['_A_'], t))
   rep.check(ok, 'TREE-CTX', '%s:adjusts-every-replacement' % vn.site,
             'each replacement that has a ctx must be adjusted to the '
             'placeholder\'s context', line=vn.node.lineno,
@@ -288,7 +300,9 @@ def check(model, rep, tier):
             is_t(x) for x in a.args):
       edits.append(core.norm(a))
   rets = [core.norm(r.value) for r in ast.walk(up.node) if isinstance(r, ast.Return)]
-  rep.check(not edits and rets == ["'\\n'.join(codes)"], 'TREE-TEXT',
+  rets_ok = len(rets) == 1 and pat.match("'\\n'.join(_C_)", [
+      r.value for r in ast.walk(up.node) if isinstance(r, ast.Return)][0]) is not None
+  rep.check(not edits and rets_ok, 'TREE-TEXT',
             '%s:no-line-edits' % up.site,
             'unparse may only strip whole statements and join them with '
             'newlines: editing printed lines changes multi-line string constants, '
